@@ -112,6 +112,20 @@ func (c *ClusterNode) RPCSendShard(args *RPCSendShardRequest, reply *RPCSendShar
 	// way must not leave something that looks like a shard: the next start-up
 	// sync of this node would send the torso on, over a complete copy.
 	incomingPath := shardPath + ".incoming"
+	if len(args.ChunkData) == 0 && args.ChunkIndex > 0 {
+		// The chunk that ends a transfer may arrive twice, the sender repeats
+		// a call whose answer came too late. The first delivery has put the
+		// file in place: starting an empty collection file here would put
+		// nothing in the place of the complete copy.
+		if _, err := os.Stat(incomingPath); os.IsNotExist(err) {
+			checksum, err := FileHash(shardPath)
+			if err != nil {
+				return fmt.Errorf("could not compute shard checksum: %w", err)
+			}
+			reply.Checksum = checksum
+			return nil
+		}
+	}
 	f, err := os.OpenFile(incomingPath, flags, 0644)
 	if err != nil {
 		return fmt.Errorf("could not open shard file: %w", err)
